@@ -58,7 +58,7 @@ impl C15 {
     fn audit(&mut self, c: &mut SimCore, obs: &Obs) -> MResult {
         let a = c.w.a.clone();
         let now = c.w.now();
-        let height = c.w.app.block_info().height;
+        let block = c.w.app.block_info();
         let contracts = [a.pm.clone(), a.fm.clone(), a.em.clone(), a.fc.clone(), a.fc2.clone()];
         // ---- the matrix of messages: (label, op builder, rule)
         let mut cells: Vec<(String, Box<dyn Fn(&str, Vec<Coin>) -> Op>, Rule, bool)> = vec![]; // bool: funds are part of the message
@@ -271,7 +271,7 @@ impl C15 {
                         Rule::Pending(ct) => {
                             let ow = owners[ct.as_str()].clone();
                             let pend = ow.pending_owner.as_ref().map(|p| p.as_str() == role).unwrap_or(false);
-                            let live = ow.pending_expiry.map(|e| !e.is_expired(&cosmwasm_std::BlockInfo { height, time: cosmwasm_std::Timestamp::from_seconds(now), chain_id: String::new() })).unwrap_or(true);
+                            let live = ow.pending_expiry.map(|e| !e.is_expired(&block)).unwrap_or(true);
                             pend && live && !with_funds
                         }
                         Rule::FarmOwner(fo) => fo == role,
